@@ -1562,6 +1562,11 @@ def replay(payload):
             print('implementation   :', d.expected)
         except Exception as e:
             print('implementation encode raises', type(e).__name__)
+    if str(f.get('kind', '')).startswith('fresh-process') and f.get('octets') and f.get('type'):
+        want_tree = f.get('value') if f.get('kind') == 'fresh-process-decode-differs' else None
+        want_dict = f.get('want') if f.get('kind') == 'fresh-process-dict-contents-differ' else None
+        now = fresh_process_failures([(f['type'], bytes.fromhex(f['octets']), want_tree, want_dict, 'replay')])
+        print('fresh decode-only process now:', now or 'reports the encoder process\'s value')
     for b in payload.get('broken', []):
         if isinstance(b, dict) and b.get('minimal_case'):
             print('disagreeing case:', b['minimal_case'])
